@@ -67,6 +67,11 @@ def run_c16(rep, tier, seed):
             uo, fo = UNITS[(i + k) % 3]
             ur, fr = UNITS[(i + 2 * k + 1) % 3]
             ds, truth = build(sc, r["pts"], k)
+            if k % 3 == 2 and "mesh" in ds.keys():
+                # the same groups also sit in another Dataset whose mesh is a different one: the extraction reads the dataset it is given
+                other = ds.copy()
+                other["mesh"] = ds["mesh"][::-1]
+                other_keep = other             # noqa: F841  keep it alive during the call
             before = snap(ds)
             origin = osyris.Vector(*[float(x) * fo for x in sc["o"][:sc.get("nd", 3)]], unit=uo)
             rep.case(klass=(sc["kind"], i, uo, ur, sc.get("nd", 3)))
